@@ -69,3 +69,217 @@ Proof.
     vec_land 18446744043644780543. fsimp.
     destruct (nz (f_dq_state_received_override (enc r))); reflexivity.
 Qed.
+
+(* ---- generic helpers: a single-field mask test ---- *)
+Lemma land_lockfail r : wfr r ->
+  Z.land (enc r) 18437737150406459391 =
+  f_owner r + 274877906944 * f_em r + 2199023255552 * (4096 * (f_wq r / 4096)) + 18014398509481984 * f_ib r +
+  36028797018963968 * f_hi r.
+Proof.
+  intros W. pose proof W as W'. unfold wfr in W'. rewrite enc_vec.
+  vec_land 18437737150406459391. fsimp. rewrite vec_linear.
+  (* the width field is masked by 4096: only the width-full bit survives *)
+  assert (E : Z.land (f_wq r) 4096 = 4096 * (f_wq r / 4096)).
+  { change 4096 with (2 ^ 12) at 1. rewrite land_bit by lia. change (2 ^ 12) with 4096.
+    assert (0 <= f_wq r / 4096 < 2) by (split; [apply Z.div_pos; lia | apply Z.div_lt_upper_bound; lia]).
+    rewrite Z.mod_small by lia. lia. }
+  rewrite E. lia.
+Qed.
+
+Definition lock_free (r : dqf) : bool :=
+  (f_owner r =? 0) && (f_em r =? 0) && (f_wq r <? 4096) && (f_ib r =? 0) && (f_hi r =? 0).
+
+Lemma lockfail_zero_iff r : wfr r -> (Z.land (enc r) 18437737150406459391 =? 0) = lock_free r.
+Proof.
+  intros W. rewrite land_lockfail by exact W. unfold lock_free. pose proof W as W'. unfold wfr in W'.
+  assert (Hq : 0 <= f_wq r / 4096 < 2) by (split; [apply Z.div_pos; lia | apply Z.div_lt_upper_bound; lia]).
+  assert (Hq' : f_wq r / 4096 = 0 <-> f_wq r < 4096).
+  { split; intros.
+    - destruct (Z.lt_ge_cases (f_wq r) 4096); [assumption|]. assert (1 <= f_wq r / 4096) by (apply Z.div_le_lower_bound; lia). lia.
+    - apply Z.div_small. lia. }
+  destruct (Z.eqb_spec (f_owner r) 0), (Z.eqb_spec (f_em r) 0), (Z.ltb_spec (f_wq r) 4096), (Z.eqb_spec (f_ib r) 0),
+    (Z.eqb_spec (f_hi r) 0); cbn [andb];
+    match goal with |- (?x =? 0) = _ => destruct (Z.eqb_spec x 0) end; try reflexivity; exfalso; lia.
+Qed.
+
+Lemma nz_lockfail r : wfr r -> nz (Z.land (enc r) 18437737150406459391) = negb (lock_free r).
+Proof. intros W. unfold nz. rewrite (lockfail_zero_iff r W). reflexivity. Qed.
+
+Lemma base_anon_f r : wfr r -> nz (f_dq_state_is_base_anon (enc r)) = (f_role r mod 2 =? 1).
+Proof.
+  intros W. pose proof W as W'. unfold wfr in W'. unfold f_dq_state_is_base_anon. rewrite enc_vec.
+  vec_land 68719476736. fsimp. rewrite vec_linear.
+  assert (E : Z.land (f_role r) 1 = f_role r mod 2) by (change 1 with (Z.ones 1); rewrite Z.land_ones by lia; reflexivity).
+  rewrite E. unfold nz, b2z.
+  assert (f_role r mod 2 = 0 \/ f_role r mod 2 = 1) as [->| ->] by (pose proof (Z.mod_pos_bound (f_role r) 2); lia); reflexivity.
+Qed.
+
+Lemma max_qos_f r : wfr r -> f_dq_state_max_qos (enc r) = f_mq r.
+Proof.
+  intros W. pose proof W as W'. unfold wfr in W'. unfold f_dq_state_max_qos. cbv zeta. rewrite enc_vec.
+  vec_land 30064771072. fsimp. rewrite vec_linear.
+  replace (0 + 1073741824 * 0 + 2147483648 * 0 + 4294967296 * f_mq r + 34359738368 * 0 + 68719476736 * 0 +
+           274877906944 * 0 + 549755813888 * 0 + 1099511627776 * 0 + 2199023255552 * 0 + 18014398509481984 * 0 +
+           36028797018963968 * 0) with (f_mq r * 2 ^ 32) by (change (2 ^ 32) with 4294967296; lia).
+  rewrite Z.shiftr_div_pow2 by lia. rewrite Z.div_mul by lia. unfold u32. apply Z.mod_small. lia.
+Qed.
+
+Lemma pending_barrier_f r : wfr r -> nz (f_dq_state_has_pending_barrier (enc r)) = (f_pb r =? 1).
+Proof.
+  intros W. pose proof W as W'. unfold wfr in W'. unfold f_dq_state_has_pending_barrier. rewrite enc_vec.
+  vec_land 1099511627776. fsimp. rewrite vec_linear. unfold nz, b2z.
+  assert (f_pb r = 0 \/ f_pb r = 1) as [->| ->] by lia; reflexivity.
+Qed.
+
+(* ---- drain_try_lock of a serial lane by a normal (non-stealing, non-manager) drainer ---- *)
+Lemma lock_fields r self floor ov :
+  wfr r -> 0 < self < 1073741824 ->
+  f_dispatch_queue_drain_try_lock 0 0 1 self floor (enc r) ov =
+  if lock_free r then
+    if (f_role r mod 2 =? 1) && (floor <? f_mq r) then Restart []
+    else Commit (enc (mk self 0 (f_enq r) (f_mq r) 0 (f_role r) 0 0 0 4096 1 0))
+                (18014398509481984 + 9007199254740992 + 2147483648 * f_enq r - 2199023255552 * f_wq r)
+  else Commit (enc (mk (f_owner r) (f_tr r) (1 - f_enq r) (f_mq r) (f_ov r) (f_role r) (f_em r) (f_d r) (f_pb r)
+                       (f_wq r) (f_ib r) (f_hi r))) 0.
+Proof.
+  intros W Hself. pose proof W as W'. unfold wfr in W'.
+  unfold f_dispatch_queue_drain_try_lock. cbv zeta.
+  change (nz (Z.land 0 1)) with false. change (nz (Z.land 0 262144)) with false. cbv iota beta.
+  change (Z.lor (Z.lor 18437736874454810624 1073741823) 274877906944) with 18437737150406459391.
+  change (Z.lor 27021597764222976 2147483648) with 27021599911706624.
+  change (u64 (u64 (s32 (1 - 1)) * 2199023255552)) with 0.
+  rewrite !(nz_lockfail r W).
+  destruct (lock_free r) eqn:LF; cbn [negb].
+  - unfold f_dq_state_needs_lock_override. rewrite base_anon_f, max_qos_f by exact W.
+    destruct ((f_role r mod 2 =? 1) && (floor <? f_mq r)) eqn:OV.
+    + unfold nz, b2z. cbn [Z.eqb negb]. reflexivity.
+    + unfold nz at 1. unfold b2z. cbn [Z.eqb negb].
+      unfold lock_free in LF. rewrite !andb_true_iff in LF. destruct LF as [[[[L1 L2] L3] L4] L5].
+      apply Z.eqb_eq in L1, L2, L4, L5. apply Z.ltb_lt in L3.
+      (* new = (old & PRESERVED) | (self | FULL) | IN_BARRIER *)
+      rewrite Z.add_0_r. rewrite (u64_id'' (enc r)) by (apply enc_range; exact W).
+      assert (Hlt : (enc r <? 9007199254740992) = true).
+      { apply Z.ltb_lt. rewrite enc_linear. rewrite L1, L2, L4, L5. lia. }
+      rewrite Hlt, orb_true_r.
+      rewrite (enc_vec r).
+      vec_land 513248591872. fsimp.
+      assert (Eo : Z.lor self 9007199254740992 = encode LAY [self; 0; 0; 0; 0; 0; 0; 0; 0; 4096; 0; 0]).
+      { rewrite vec_linear. pose proof (lor_disjoint self 1 53) as D. change (2 ^ 53) with 9007199254740992 in D.
+        rewrite Z.mul_1_l in D. rewrite D by lia. lia. }
+      rewrite Eo.
+      rewrite encode_lor by wfv_tac. cbn [map2]. fsimp.
+      vec_lor 18014398509481984. fsimp.
+      vec_land 27021599911706624. fsimp.
+      vec_land 18012199486226432. fsimp.
+      change (Z.land 4096 4096) with 4096.
+      f_equal.
+      * rewrite L2. reflexivity.
+      * rewrite !vec_linear. rewrite u64_id'' by lia. lia.
+  - change (nz 2147483648) with true. cbv iota.
+    rewrite (enc_vec r). vec_lxor 2147483648. fsimp. reflexivity.
+Qed.
+
+(* ---- more predicates on fields ---- *)
+Lemma drain_locked_f r : wfr r -> nz (f_dq_state_drain_locked (enc r)) = negb (f_owner r =? 0).
+Proof.
+  intros W. pose proof W as W'. unfold wfr in W'.
+  unfold f_dq_state_drain_locked, f_dispatch_lock_is_locked, u32.
+  change 4294967296 with (2 ^ 32). rewrite <- Z.land_ones by lia.
+  rewrite <- Z.land_assoc. change (Z.land (Z.ones 32) 1073741823) with 1073741823.
+  rewrite enc_vec. vec_land 1073741823. fsimp. rewrite vec_linear.
+  replace (f_owner r + 1073741824 * 0 + 2147483648 * 0 + 4294967296 * 0 + 34359738368 * 0 + 68719476736 * 0 +
+           274877906944 * 0 + 549755813888 * 0 + 1099511627776 * 0 + 2199023255552 * 0 + 18014398509481984 * 0 +
+           36028797018963968 * 0) with (f_owner r) by lia.
+  unfold nz, b2z. destruct (f_owner r =? 0); reflexivity.
+Qed.
+
+Lemma is_enqueued_f r : wfr r -> nz (f_dq_state_is_enqueued (enc r)) = negb ((f_enq r =? 0) && (f_em r =? 0)).
+Proof.
+  intros W. pose proof W as W'. unfold wfr in W'. unfold f_dq_state_is_enqueued. rewrite enc_vec.
+  vec_land 277025390592. fsimp. rewrite vec_linear. unfold nz, b2z.
+  assert (f_enq r = 0 \/ f_enq r = 1) as [E1|E1] by lia; assert (f_em r = 0 \/ f_em r = 1) as [E2|E2] by lia;
+    rewrite E1, E2; reflexivity.
+Qed.
+
+Lemma base_wlh_f r : wfr r -> nz (f_dq_state_is_base_wlh (enc r)) = (2 <=? f_role r).
+Proof.
+  intros W. pose proof W as W'. unfold wfr in W'. unfold f_dq_state_is_base_wlh. rewrite enc_vec.
+  vec_land 137438953472. rewrite vec_linear. fsimp. unfold nz, b2z.
+  assert (f_role r = 0 \/ f_role r = 1 \/ f_role r = 2 \/ f_role r = 3) as [E|[E|[E|E]]] by lia; rewrite E; reflexivity.
+Qed.
+
+(* ---- _dq_state_merge_qos ---- *)
+Definition merged (r : dqf) (qos : Z) : dqf :=
+  if f_mq r <? qos
+  then mk (f_owner r) (f_tr r) (f_enq r) qos (if f_role r mod 2 =? 1 then 1 else f_ov r) (f_role r) (f_em r) (f_d r)
+          (f_pb r) (f_wq r) (f_ib r) (f_hi r)
+  else r.
+
+Lemma merged_wf r qos : wfr r -> 0 <= qos < 8 -> wfr (merged r qos).
+Proof.
+  intros W Q. unfold merged. destruct (f_mq r <? qos); [|exact W].
+  unfold wfr in *. unfold mk; cbn. destruct (f_role r mod 2 =? 1); repeat split; lia.
+Qed.
+
+Lemma merge_qos_fields r qos : wfr r -> 0 <= qos < 8 -> f_dq_state_merge_qos (enc r) qos = enc (merged r qos).
+Proof.
+  intros W Q. pose proof W as W'. unfold wfr in W'.
+  unfold f_dq_state_merge_qos, f_dq_state_from_qos. cbv zeta.
+  assert (Eq : u64 (Z.shiftl qos 32) = 4294967296 * qos).
+  { rewrite Z.shiftl_mul_pow2 by lia. change (2 ^ 32) with 4294967296. rewrite u64_id'' by lia. lia. }
+  rewrite Eq.
+  assert (Em : Z.land (enc r) 30064771072 = 4294967296 * f_mq r).
+  { rewrite enc_vec. vec_land 30064771072. fsimp. rewrite vec_linear. lia. }
+  rewrite Em. unfold merged.
+  destruct (Z.ltb_spec (f_mq r) qos) as [Hlt|Hge].
+  - assert (T : (4294967296 * f_mq r <? 4294967296 * qos) = true) by (apply Z.ltb_lt; lia). rewrite T.
+    rewrite (enc_vec r). vec_land 18446744043644780543. fsimp.
+    assert (Eqv : 4294967296 * qos = encode LAY [0; 0; 0; qos; 0; 0; 0; 0; 0; 0; 0; 0]) by (rewrite vec_linear; lia).
+    rewrite Eqv. rewrite encode_lor by wfv_tac. cbn [map2]. fsimp.
+    assert (Eb : nz (f_dq_state_is_base_anon
+                      (encode LAY [f_owner r; f_tr r; f_enq r; qos; f_ov r; f_role r; f_em r; f_d r; f_pb r; f_wq r; f_ib r; f_hi r])) =
+                 (f_role r mod 2 =? 1)).
+    { change (encode LAY [f_owner r; f_tr r; f_enq r; qos; f_ov r; f_role r; f_em r; f_d r; f_pb r; f_wq r; f_ib r; f_hi r])
+        with (enc (mk (f_owner r) (f_tr r) (f_enq r) qos (f_ov r) (f_role r) (f_em r) (f_d r) (f_pb r) (f_wq r) (f_ib r) (f_hi r))).
+      rewrite base_anon_f; [reflexivity|]. unfold wfr, mk; cbn. repeat split; lia. }
+    rewrite Eb. cbn [negb].
+    destruct (f_role r mod 2 =? 1).
+    + vec_lor 34359738368. fsimp. reflexivity.
+    + reflexivity.
+  - assert (T : (4294967296 * f_mq r <? 4294967296 * qos) = false) by (apply Z.ltb_ge; lia). rewrite T. reflexivity.
+Qed.
+
+(* ---- _dispatch_queue_wakeup's rmw loop with MAKE_DIRTY (push that made the queue non-empty, merge_data) ---- *)
+Definition can_enqueue (r : dqf) : bool :=
+  (f_hi r =? 0) && (f_enq r =? 0) && (f_em r =? 0) && ((f_owner r =? 0) || (2 <=? f_role r)).
+
+Lemma wakeup_fields r qos flags target :
+  wfr r -> 0 <= qos < 8 -> nz (Z.land flags 2) = true ->
+  wakeup_loop 0 qos flags target (enc r) 2147483648 =
+  let m := merged r qos in
+  Commit (enc (mk (f_owner m) (f_tr m) (if can_enqueue r then 1 else f_enq m) (f_mq m) (f_ov m) (f_role m) (f_em m) 1
+                  (f_pb m) (f_wq m) (f_ib m) (f_hi m))) 0.
+Proof.
+  intros W Q F. pose proof W as W'. unfold wfr in W'.
+  unfold wakeup_loop. cbv zeta. rewrite F.
+  rewrite merge_qos_fields by assumption.
+  rewrite is_suspended_f, is_enqueued_f, drain_locked_f, base_wlh_f by exact W.
+  change (2147483648 =? 274877906944) with false. cbn [negb andb].
+  pose proof (merged_wf r qos W Q) as Wm. pose proof Wm as Wm'. unfold wfr in Wm'.
+  set (m := merged r qos) in *.
+  assert (Same : f_owner m = f_owner r /\ f_tr m = f_tr r /\ f_enq m = f_enq r /\ f_em m = f_em r /\ f_hi m = f_hi r).
+  { subst m. unfold merged. destruct (f_mq r <? qos); cbn; auto. }
+  destruct Same as (S1 & S2 & S3 & S4 & S5).
+  assert (C : (negb (0 <? f_hi r) && negb (negb ((f_enq r =? 0) && (f_em r =? 0))) &&
+               (negb (negb (f_owner r =? 0)) || (2 <=? f_role r))) = can_enqueue r).
+  { unfold can_enqueue. rewrite !negb_involutive.
+    destruct (Z.ltb_spec 0 (f_hi r)); destruct (Z.eqb_spec (f_hi r) 0); try lia; cbn [negb andb]; try reflexivity;
+      try (rewrite andb_assoc; reflexivity). }
+  rewrite negb_involutive. rewrite C.
+  destruct (can_enqueue r) eqn:CE.
+  - rewrite (enc_vec m). vec_lor 2147483648.
+    unfold can_enqueue in CE. rewrite !andb_true_iff in CE. destruct CE as [[[_ CE2] _] _]. apply Z.eqb_eq in CE2.
+    rewrite S3, CE2. change (Z.lor 0 1) with 1. fsimp.
+    vec_lor 549755813888. fsimp. reflexivity.
+  - rewrite (enc_vec m). vec_lor 549755813888. fsimp. reflexivity.
+Qed.
